@@ -165,6 +165,9 @@ package chained_bft
 //@   property C15
 //@   requires node_given: node != nil && t.OrphanList != nil
 //@   at fieldwrite.Sons assert adopts_only_its_own_children: $0 == node && bytesEq(parentIdOf(n), idOf(node))
+// A waiting orphan leaves the list here only by being adopted (it stays stored exactly once).
+//@   local curPtr *list.Element
+//@   at List.Remove assert an_orphan_leaves_the_list_only_when_adopted: recv == t.OrphanList && $0 == curPtr && bytesEq(parentIdOf(n), idOf(node))
 //@   ensures only_the_new_node_gains_sons: (forall p *ProposalNode :: p != node ==> p.Sons == old(p.Sons)) && slicesFrame(*ProposalNode)
 //@   ensures markers_untouched: markersKept(t) && t.Root == old(t.Root)
 //@   loop 1 invariant frame: (forall p *ProposalNode :: p != node ==> p.Sons == old(p.Sons)) && slicesFrame(*ProposalNode) && markersKept(t) && t.Root == old(t.Root) && t.OrphanList == old(t.OrphanList)
